@@ -3,7 +3,7 @@
    Model/Exchange.v for every event sequence; real time ("promptly", "at the
    configured interval"), the OS socket layer and goroutine reclamation are
    observed by the harness, not proved. *)
-From Radius Require Import Base.Bytes Base.Res Model.Attrs Model.Packet Model.Client Model.Exchange Proofs.Exchange Proofs.ExchangeShape.
+From Radius Require Import Base.Bytes Base.Res Model.Attrs Model.Packet Model.Client Model.Exchange Proofs.Exchange Proofs.ExchangeShape Proofs.ExchangeLabels.
 Open Scope nat_scope.
 
 Section S.
@@ -44,6 +44,18 @@ Proof. exact (flood_cannot_starve_cancellation H retry max_errors skip_verify re
 Theorem C08_dial_failure_maps_to_ctx : forall s, xmain s = M_dialled ->
   xmain (step s XDialFail) = M_returned (if ctx_done s then XCtxErr else XNetErr).
 Proof. exact (dial_failure_maps_to_ctx H retry max_errors skip_verify request). Qed.
+(* for EVERY state of the model (no invariant assumed) and every event: the caller's context, the derived context and
+   the socket's closed flag are one-way; a step either leaves the list of datagrams written untouched or appends
+   exactly one datagram, which is the request as encoded, and it does so only on an open socket and only at one of
+   the two send sites (the calling goroutine's first write after dialling; a tick taken by the running helper while
+   the ticker is not stopped) *)
+Theorem C08_label_table : forall s e,
+  (ctx_done s = true -> ctx_done (step s e) = true) /\
+  (derived_done s = true -> derived_done (step s e) = true) /\
+  (conn_closed s = true -> conn_closed (step s e) = true) /\
+  (sent (step s e) = sent s \/
+   exists w, encode H request = Ok w /\ sent (step s e) = sent s ++ [w] /\ conn_closed s = false /\ send_site s e).
+Proof. exact (exchange_label_table_holds H retry max_errors skip_verify request). Qed.
 End S.
 
 From Radius Require Import Crypto.MD5.
@@ -75,3 +87,4 @@ Print Assumptions C08_flood_cannot_starve_cancellation.
 Print Assumptions C08_dial_failure_maps_to_ctx.
 Print Assumptions C08_code_order.
 Print Assumptions C08_code_paths_complete.
+Print Assumptions C08_label_table.
